@@ -137,7 +137,7 @@ func addFuel(t *Term, fuel *Term, rec map[string]bool) *Term {
 }
 
 // BuildQuery renders facts ∧ ¬goal.
-func (e *Engine) BuildQuery(facts []*Term, goal *Term, solver string, lenBound bool, fuel int) (string, error) {
+func (e *Engine) BuildQuery(facts []*Term, goal *Term, solver string, lenBound bool, fuel int, home string) (string, error) {
 	q := &queryBuilder{e: e, ops: map[string]bool{}, sorts: map[string]*Sort{}, consts: map[string]*Term{}, syms: map[*SpecSym]bool{},
 		exts: map[string]*ExtSym{}, lits: map[string]*Term{}, litAr: map[string]map[int]bool{}}
 	neg := Not(goal)
@@ -496,6 +496,11 @@ func (e *Engine) BuildQuery(facts []*Term, goal *Term, solver string, lenBound b
 	}
 	for _, s := range syms {
 		if !s.Recursive {
+			continue
+		}
+		if home != "" && len(s.names) > 0 && !strings.HasPrefix(s.names[0], home+".") {
+			// a recursive spec function of another package (reachable only through the contract of a
+			// pure function of that package) stays opaque here: no unfolding axiom (fewer hypotheses)
 			continue
 		}
 		for i, n := range s.names {
